@@ -166,7 +166,15 @@ def thread_tie(ctx):
            'pdc': CB.play.DisconnectPacket.get_id(context)}
     KN = {'LoginReactor': 'login', 'PlayingReactor': 'play', 'PlayingStatusReactor': 'pstatus', 'StatusReactor': 'status'}
 
+    class Spin(BaseException):
+        """the thread keeps reading a stream that has ended: the very thing C15 forbids"""
+
     class SegFile(SegStream):
+        def read(self, n=-1):
+            if self.empties > 200 or self.reads > 20000:
+                raise Spin()
+            return SegStream.read(self, n)
+
         def close(self):
             pass
 
@@ -233,7 +241,13 @@ def thread_tie(ctx):
             conn.reactor.handle_status = lambda d: events.append(('status',))
         t = C.NetworkingThread(conn)
         conn.networking_thread = t
-        t.run()
+        try:
+            t.run()
+        except Spin:
+            ctx.violation('the networking thread (%s reactor) keeps reading after the stream has ended: %d reads, %d of them '
+                          'after end of stream' % (kind, f.reads, f.empties),
+                          {'kind': kind, 'segments': [len(x) for x in segs][:20]}, key={'kind': 'spin', 'reactor': kind})
+            return 'ids=? end=spin kind=%s comp=0 reads=%d eofreads=%d' % (kind, f.reads, f.empties)
         got = [p.id if type(p) is P.Packet else p.get_id(conn.context) for p in delivered]
         excs = [e[1] for e in events if e[0] == 'exc']
         if excs == ['EOFError'] and not calls:
